@@ -23,7 +23,7 @@ C = {
          "printers abstract in the theorems (PrinterOk/Stable/htv hypotheses checked byte for byte by the harness); nested includes not modelled"),
  'C08': ("invariant Inv8 (positions hold the very object, ids unique, by-id/by-name lookups, deleted atoms absent) established by parse and preserved by every operation for ALL histories (history_inv), reread_resets/history_independent; invariant evaluated on the real object graph after every step, class-level state compared; attrs_history/read_attrs_spec: every instruction-valued attribute after any history equals the specification of the file read last",
          "op alphabet: read, delete, add_line, rename, element, to_isotropic, setters; replace_line/add_atom/insert_frag_fend_entry not modelled"),
- 'C09': ("occ_eq_rule, pair_sums_to_p, sum_exact_spec, unit_formula_spec over all codes, FVAR lists and atom lists; generated files through the real API, full m x p grid in the thorough tier; src_ theorems: Atom.occupancy and sum_formula_exact_as_dict TRACED through read_string equal the model on every free-variable branch",
+ 'C09': ("occ_eq_rule, pair_sums_to_p, pair_occupancies_in_range, sum_exact_spec, unit_formula_spec over all codes, FVAR lists and atom lists; generated files through the real API, full m x p grid in the thorough tier; src_ theorems: Atom.occupancy and sum_formula_exact_as_dict TRACED through read_string equal the model on every free-variable branch",
          "exact rational arithmetic (implementation compared at 1e-7); codes with <= 8 decimals; SFAC list duplicate free"),
  'C10': ("parse_denote by induction over the component grammar (numerals of any length, any layout), print_parse_id, eq_iff_mod_lattice, card_components; the bounded grammar (40 836 components) enumerated exhaustively on the real parser in both tiers; history_refines/history_roundtrip/history_eq over operator objects the library makes itself (centric copies, apply_latt_symm chains, re-parsed prints)",
          "translations exact in the model, float(n)/float(d) compared at 1e-12; round trip of thirds/sixths by harness only"),
